@@ -60,8 +60,8 @@ func c11Spec(tier string) *HSpec {
 			if len(h.applyModel(parseOp(a))) > 0 {
 				continue // failing commands are C06's
 			}
-			if a == "restart" && len(m.Services) == 0 {
-				continue
+			if a == "restart" && len(m.Services) == 0 && d == 0 {
+				continue // nothing has been written yet; a restart of an emptied proxy (after removes) is explored
 			}
 			if a != "restart" && !strings.HasPrefix(a, "deploy") && !strings.HasPrefix(a, "rdeploy") && h.M.key() == m.key() {
 				continue // no-op in the model (resume of a running service ...)
